@@ -413,6 +413,17 @@ def run_framekinds(case):
         w.run(1e6)
         ev = make_event("A", 1, 1000, [], 'q"uote\\')
         bad = dict(ev, sig=ev["sig"][:-1] + ("0" if ev["sig"][-1] != "0" else "1"))
+        repl = make_event("A", 10002, 1001, [], "replaceable")
+        repl_old = make_event("A", 10002, 999, [], "replaceable, older")
+        prm = make_event("A", 30000, 1002, [["d", "x"]], "parameterized")
+        dele = make_event("A", 5, 1003, [["e", "ab" * 32]], "")
+        eph = make_event("A", 20001, 1004, [], "ephemeral")
+        # every kind of acknowledgement twice (accepted, then as a duplicate / superseded / ephemeral again)
+        for fr in (["EVENT", repl], ["EVENT", repl], ["EVENT", repl_old], ["EVENT", prm], ["EVENT", prm], ["EVENT", dele], ["EVENT", dele], ["EVENT", eph], ["EVENT", eph]):
+            w.loop.advance(1.0)
+            w.send("c", fr, 1e6)
+            n += 1
+        w.loop.advance(2.0)
         for fr in (["EVENT", ev], ["EVENT", ev], ["EVENT", bad], ["EVENT", ev], ["EVENT", ev], ["REQ", "a", {"kinds": [1]}],
                    ["REQ", "b", {"kinds": [1]}], ["REQ", "a", "notafilter"], ["REQ", "a", {"kinds": "x"}], ["CLOSE", "a"],
                    ["AUTH", {"id": "x"}], ["AUTH", "x"], ["EVENT", {"id": 'we"ird'}]):
